@@ -70,6 +70,8 @@ class Sim(object):
         self._clock_start = P.CLOCK.now
         P.CLOCK.tick = _dt.timedelta(microseconds=ck.get('tick_us', 137))
         P.CLOCK.readings = []
+        P.CLOCK.utcoffset = _dt.timedelta(seconds=ck.get('utcoffset_s', 0))
+        P.CLOCK.nonlocal_reads = 0
         P.RANDOM.script = []
         P.RANDOM.rng = random.Random(case.get('randseed', 0))
         P.RANDOM.calls = 0
